@@ -23,7 +23,13 @@ use prost::{DecodeError, Message};
 use crate::proto::command::ListenersCount;
 
 pub const MAX_FDS_OUT: usize = 200;
-pub const MAX_BYTES_OUT: usize = 4096;
+/// Receive-buffer size for the listeners manifest. It must hold the
+/// length-delimited `ListenersCount` of `MAX_FDS_OUT` addresses in their
+/// longest textual form (a scoped IPv6 `SocketAddr` prints in up to 66
+/// bytes, plus 2 bytes of protobuf framing per entry): 200 * 68 + 3 = 13603.
+/// The former 4096 bytes truncated manifests of ~85 IPv6 or ~180 IPv4
+/// listeners, well inside the advertised `MAX_FDS_OUT` limit.
+pub const MAX_BYTES_OUT: usize = 16 * 1024;
 
 #[derive(thiserror::Error, Debug)]
 pub enum ScmSocketError {
